@@ -308,8 +308,9 @@ func TestVerifC04Admin(t *testing.T) {
 			"pprofTrustedProxies: ['127.0.0.1']\nplaybackTrustedProxies: ['127.0.0.1']\n" +
 			"rtspAuthMethods: [basic]\n" +
 			"pathDefaults:\n  recordDeleteAfter: 0s\n  recordPath: " + filepath.Join(dir, "%path/%Y-%m-%d_%H-%M-%S-%f") + "\n"
-		core, err := vcStartCore(opts)
+		core, err := c04StartCore(opts)
 		if err != nil {
+			fmt.Printf("VERIF-INCONCLUSIVE: the Core did not start (loopback ports taken by other processes?)\n")
 			t.Fatalf("harness: %v", err)
 		}
 		defer core.Stop()
@@ -592,4 +593,18 @@ func c04PathNote(r c04Req) string {
 		return fmt.Sprintf(" on %q", r.pbPath)
 	}
 	return ""
+}
+
+// c04StartCore: the free-port probe of the shared helper races with every other process on a busy machine
+// (the port is released before the Core binds it); keep trying for a while before giving up.
+func c04StartCore(o vcCoreOpts) (*vcCore, error) {
+	var err error
+	for i := 0; i < 6; i++ {
+		var c *vcCore
+		if c, err = vcStartCore(o); err == nil {
+			return c, nil
+		}
+		time.Sleep(time.Duration(150*(i+1)) * time.Millisecond)
+	}
+	return nil, err
 }
